@@ -263,9 +263,13 @@ class Backends:
             def log_message(self, *a):
                 pass
 
+        class Quiet(http.server.ThreadingHTTPServer):
+            def handle_error(self, request, client_address):
+                pass                        # probes cut off when the proxy stops
+
         self.servers = []
         for _ in range(n):
-            s = http.server.ThreadingHTTPServer(("127.0.0.1", 0), H)
+            s = Quiet(("127.0.0.1", 0), H)
             s.daemon_threads = True
             threading.Thread(target=s.serve_forever, kwargs={"poll_interval": 0.05}, daemon=True).start()
             self.servers.append(s)
@@ -744,11 +748,12 @@ def scenario_list(s, rnd, tier):
     Returns the list cases (services as the harness knows them, stdout)."""
     cases = []
     known = {}
+    first = len(s.steps)
 
     def snapshot(tag):
         st = s.run(["list"], "ok")
         cases.append({"kind": "list", "tag": tag, "services": [dict(v) for v in known.values()], "stdout": st["stdout"],
-                      "exit": st["exit"]})
+                      "exit": st["exit"], "commands": [x["argv"] for x in s.steps[first:]]})
 
     snapshot("empty")
     specs = list(LIST_SERVICES)
@@ -948,9 +953,17 @@ def run(tier, seed):
     rnd = random.Random(seed)
     harness_notes = []
     try:
+        timing = {}
+        t0 = time.time()
         ok, blog = coq_build(["props/C20.vo", "corr/C20corr.vo"])
+        timing["coq_build_incl_lock_wait"] = round(time.time() - t0, 1)
+        t0 = time.time()
         proofs_ok, pa = proof_obligations(work, res, "C20.v", ok, blog)
+        timing["props_recheck"] = round(time.time() - t0, 1)
+        t0 = time.time()
         binary, build_log = build_binary(work)
+        timing["go_build"] = round(time.time() - t0, 1)
+        t0 = time.time()
         cases, obs = [], []
         harness_ok = binary is not None
         if not harness_ok:
@@ -1095,6 +1108,8 @@ def run(tier, seed):
                 harness_notes.append("scenario did not reach both a proxy-side success and a proxy-side error for: %s (%r)"
                                      % (", ".join(missing), {k: sorted(v) for k, v in by_cmd.items()}))
 
+        timing["binary_and_overlay_runs"] = round(time.time() - t0, 1)
+        t0 = time.time()
         failing = []
         if ok and terms:
             shard = 300
@@ -1111,6 +1126,8 @@ def run(tier, seed):
                     for (j, a, m) in parse_failures(txt):
                         failing.append((owner[s + j], a, m, terms[s + j].split()[0]))
 
+        timing["coq_case_evaluation"] = round(time.time() - t0, 1)
+        res.coverage["timing_s"] = timing
         kinds, outcomes = {}, {}
         for c, o in zip(cases, obs):
             k = c["kind"]
@@ -1211,5 +1228,6 @@ def replay_hint(c):
             ENV_KEY.decode(), ENV_KEY.decode(), None if c["pref"] is None else bytes.fromhex(c["pref"]),
             ENV_KEY.decode(), None if c["bare"] is None else bytes.fromhex(c["bare"]))
     if c["kind"] == "list":
-        return "deploy the listed services, then `kamal-proxy list`"
+        return "against one running proxy (targets answering 200 on /up): " + " ; ".join(
+            "kamal-proxy " + " ".join(a) for a in c.get("commands", []))
     return ""
